@@ -58,6 +58,10 @@ CHECKS = {
    text="Seeded histories over message slots and harness-owned buffers in which the fault is the owner reusing its memory at a later, seeded instant: the input buffer of a completed (lazy or eager) Unmarshal is overwritten or reused for the next input, the source of a Clone/Merge is mutated in place, a bufio.Reader that delivered a protodelim frame goes on reading. Expected content is tracked from private copies only; every observation and the final state compare deterministic bytes and Equal, and an address-range walk rejects any byte slice of a message that overlaps a caller-owned buffer or another slot. Generated, opaque/lazy, extension-bearing and dynamicpb messages.",
    note="Sampling of histories and fault instants. Deterministic bytes are taken as content identity; lazy buffers are observed only through their effects (content after scribble), not by address.",
    technique="deterministic simulation: seeded operation/fault histories (buffer scribble, owner mutation, reader reuse) against a private-copy reference, plus address-overlap invariant"),
+ "C17": dict(level="exploration", ref="DESIGN.md section 4 (C17)",
+   text="Seeded inputs (valid, legal non-minimal, corrupt inside a nested preferably lazy submessage) are decoded lazily and eagerly; verdicts must agree, then a seeded history of reads and writes (getters, reflection, Size/Marshal, JSON/text, setters and clearers incl. generated ones, Mutable, Merge into/out of, Unmarshal with Merge with and without NoLazyDecoding, failing re-decodes, Reset, Clone-and-continue, UseCachedSize pairs, scribbling the original input) is applied to both in lock-step with every result and, at seeded points and at the end, Equal / deterministic bytes / CheckInitialized / JSON / text compared. Panics at any access are violations. The searched dimension is when deferred decoding happens relative to the other operations and faults.",
+   note="Sampling of inputs and histories; no concurrency in this check (C18 covers shared readers). Size is exempt while a non-minimal encoding is still undecoded (documented exception). Eager decoding is the reference.",
+   technique="deterministic simulation: seeded operation/fault histories applied in lock-step to a lazily and an eagerly decoded twin, result-by-result comparison"),
 }
 
 def main():
